@@ -58,7 +58,7 @@ def chi2_measure(
     measurement = {"chi2_statistic": chi2}
 
     # Excluding features not associated enough
-    active = chi2 < thresh_chi2
+    active = chi2 >= thresh_chi2
 
     return active, measurement
 
@@ -107,7 +107,7 @@ def cramerv_measure(
     measurement.update({"cramerv_measure": cramerv})
 
     # Excluding features not associated enough
-    active = cramerv < thresh_cramerv
+    active = cramerv >= thresh_cramerv
 
     return active, measurement
 
@@ -158,6 +158,6 @@ def tschuprowt_measure(
     measurement.update({"tschuprowt_measure": tschuprowt})
 
     # Excluding features not associated enough
-    active = tschuprowt < thresh_tschuprowt
+    active = tschuprowt >= thresh_tschuprowt
 
     return active, measurement
